@@ -138,6 +138,10 @@ func TestVerifC19Proc(t *testing.T) {
 			callCtx = c2
 		}
 		set := processor.Settings{ID: component.MustNewIDWithName("verif", fmt.Sprint(c)), TelemetrySettings: tset, BuildInfo: component.NewDefaultBuildInfo()}
+		// the helper's own options: declared capabilities must not change what is counted
+		mutates := rng.Bool()
+		popts := []Option{WithCapabilities(consumer.Capabilities{MutatesData: mutates})}
+		out.Stat(fmt.Sprintf("declares_mutates_data_%v", mutates), 1)
 		cur := 0
 		handed := -1 // items the next consumer received in the current call (-1: not called)
 		nextRes := func(n int) error {
@@ -166,7 +170,7 @@ func TestVerifC19Proc(t *testing.T) {
 					return td, skipErr(cur)
 				}
 				return vC19T(ops[cur].nout), nil
-			})
+			}, popts...)
 			if err != nil {
 				t.Fatal(err)
 			}
@@ -188,7 +192,7 @@ func TestVerifC19Proc(t *testing.T) {
 					return md, skipErr(cur)
 				}
 				return vC19M(ops[cur].nout), nil
-			})
+			}, popts...)
 			if err != nil {
 				t.Fatal(err)
 			}
@@ -210,7 +214,7 @@ func TestVerifC19Proc(t *testing.T) {
 					return ld, skipErr(cur)
 				}
 				return vC19L(ops[cur].nout), nil
-			})
+			}, popts...)
 			if err != nil {
 				t.Fatal(err)
 			}
